@@ -595,6 +595,26 @@ def extra_closure_steps(cx, f, it, ret, st, args, problems):
         except (Unsupported, Diverges) as e:
             problems.append((f, 'lazily returned scan closure could not be stepped: %s' % e))
         return
+    if isinstance(ret, Stream) and ret.kind == 'fromfn':
+        # lazily returned iter::from_fn: step its closure once with havoced scalar captures on its (opaque) source
+        cell = ret.parts[1]
+        try:
+            clos = it.read(st, cell.root, cell.path)
+            from ..interp import State
+            st2 = State(dict(st.store), (), frozenset(st.facts))
+
+            def hv3(v, name):
+                if isinstance(v, tuple):
+                    return sym(name)
+                if isinstance(v, Struct):
+                    return Struct(v.path, tuple(hv3(x, '%s.%d' % (name, i)) for i, x in enumerate(v.fields)), v.tyargs)
+                return v
+            caps = tuple(hv3(c, 'cap%d' % i) for i, c in enumerate(clos.captures))
+            it.write(st2, cell.root, cell.path, Closure(clos.path, caps, clos.subst))
+            it.call_closure(CallCtx(it, None, st2, None, [], None, None), cell, [])
+        except (Unsupported, Diverges) as e:
+            problems.append((f, 'lazily returned from_fn closure could not be stepped: %s' % e))
+        return
     if not isinstance(ret, Stream) or ret.kind != 'map':
         return
     cell = ret.parts[1]
@@ -613,12 +633,27 @@ def extra_closure_steps(cx, f, it, ret, st, args, problems):
         if isinstance(v, Struct):
             return Struct(v.path, tuple(hv(x, '%s.%d' % (name, i)) for i, x in enumerate(v.fields)), v.tyargs)
         return v
-    caps = tuple(hv(c, 'cap%d' % i) for i, c in enumerate(clos.captures))
-    scalar_caps = [(i, caps[i], clos.captures[i]) for i in range(len(caps)) if isinstance(caps[i], tuple) and caps[i][0] == 'sym' and isinstance(clos.captures[i], tuple)]
+    from ..interp import State
+    # which by-value captures does a call change?  (hoisted constants such as `last_ix = len − 1` are not state: they
+    # keep the value they were captured with)
+    changing = None
+    try:
+        stp = State(dict(st.store), (), frozenset(st.facts))
+        pargs = [it.materialize(body['locals'][i]['ty'], 'parg%d' % i, stp, {}) for i in range(2, body['arg_count'] + 1)]
+        mark0 = len(it.sites)
+        it.call_closure(CallCtx(it, None, stp, None, [], None, None), cell, pargs)
+        del it.sites[mark0:]
+        after0 = it.read(stp, cell.root, cell.path)
+        changing = {i for i, c in enumerate(clos.captures) if after0.captures[i] != c}
+    except (Unsupported, Diverges):
+        changing = None
+    caps = tuple(hv(c, 'cap%d' % i) if (changing is None or i in changing or not isinstance(c, tuple)) else c for i, c in enumerate(clos.captures))
+    scalar_caps = [(i, caps[i], clos.captures[i]) for i in range(len(caps)) if isinstance(caps[i], tuple) and caps[i][0] == 'sym' and isinstance(clos.captures[i], tuple)
+                   and caps[i] != clos.captures[i]]
 
     def step(extra_facts):
         st2 = State(dict(st.store), (), frozenset(st.facts) | frozenset(extra_facts))
-        it.write(st2, cell.root, cell.path, Closure(clos.path, caps))
+        it.write(st2, cell.root, cell.path, Closure(clos.path, caps, clos.subst))
         cargs = []
         for i in range(2, body['arg_count'] + 1):
             cargs.append(it.materialize(body['locals'][i]['ty'], 'carg%d' % i, st2, {}))
@@ -627,7 +662,6 @@ def extra_closure_steps(cx, f, it, ret, st, args, problems):
         it.call_closure(ctx, cell, cargs)
         after = it.read(ctx.state, cell.root, cell.path)
         return mark, after
-    from ..interp import State
     try:
         mark, after = step([])
     except (Unsupported, Diverges) as e:
@@ -642,8 +676,18 @@ def extra_closure_steps(cx, f, it, ret, st, args, problems):
             if x[0] == 'len' and x[1][0] == 'seq':
                 for i, cs, init in scalar_caps:
                     cands.append(('icmp', 'lt', cs, x))
+            # and whatever else the cursor is compared with (`cursor ≤ last_ix`)
+            if x[0] == 'icmp' and x[1] in ('lt', 'le', 'gt', 'ge'):
+                capsyms = {cs for _, cs, _ in scalar_caps}
+                l_, r_ = x[2], x[3]
+                op_ = x[1]
+                if r_ in capsyms and l_ not in capsyms:
+                    l_, r_ = r_, l_
+                    op_ = {'lt': 'gt', 'le': 'ge', 'gt': 'lt', 'ge': 'le'}[op_]
+                if l_ in capsyms and not (set(subterms(r_)) & capsyms) and op_ in ('lt', 'le'):
+                    cands.append(('icmp', 'le', l_, r_))
     cands = list(dict.fromkeys(cands))
-    cands = [c for c in cands if entails(set(st.facts), ('icmp', 'lt', [init for i, cs, init in scalar_caps if cs == c[2]][0], c[3]))]
+    cands = [c for c in cands if entails(set(st.facts), ('icmp', c[1], [init for i, cs, init in scalar_caps if cs == c[2]][0], c[3]))]
     while cands:
         del it.sites[mark:]
         try:
@@ -655,7 +699,7 @@ def extra_closure_steps(cx, f, it, ret, st, args, problems):
         for c in cands:
             i = [i for i, cs, init in scalar_caps if cs == c[2]][0]
             nv = after.captures[i]
-            ok = all(entails(set(st.facts) | set(cands) | set(conds), ('icmp', 'lt', leaf, c[3])) for conds, leaf in sel_leaves(nv))
+            ok = all(entails(set(st.facts) | set(cands) | set(conds), ('icmp', c[1], leaf, c[3])) for conds, leaf in sel_leaves(nv))
             if ok:
                 keep.append(c)
         if len(keep) == len(cands):
